@@ -1,11 +1,62 @@
-"""C20 - precision refinement: the reassignment step.
+"""C20 - precision refinement: the reassignment step (symbolic values, bounded sizes) and a bounded concrete check of optimize_prec_assignment.
 
 Function under contract: plinio/methods/mps/utils.py _reassign_precisions (mode A: symbolic score matrix, every comparison and every
 data-dependent shape forks; target counts enumerated over all compositions of the channel count).  Sizes are bounded (P x C up to
 3 x 3): this clause is a *bounded* stand-in in the number of precisions / channels, exhaustive in the score values.
 """
 import torch
-from plinio.methods.mps.utils import _reassign_precisions
+import torch.nn as nn
+from plinio.methods.mps.utils import _reassign_precisions, optimize_prec_assignment
+from plinio.methods.mps.mps import MPS, get_default_qinfo
+from plinio.methods.mps.nn.qtz import MPSType
+from plinio.cost import ne16_latency
+
+
+class OneConv(nn.Module):
+    def __init__(self, cin, cout, k):
+        super().__init__()
+        self.conv = nn.Conv2d(cin, cout, k, padding=k // 2)
+
+    def forward(self, x):
+        return self.conv(x)
+
+
+def h_optimize(H, cin, counts, k=3, size=6):
+    """BOUNDED (concrete values): optimize_prec_assignment on a one-layer per-channel MPS model with the NE16 cost; `counts` channels start at
+    2 / 4 / 8 bit.  Post-conditions of the statement: promotion only, one precision per channel, cost under the refinement's model not higher"""
+    cout = sum(counts)
+    net = OneConv(cin, cout, k)
+    k = 1
+    for n, p in net.named_parameters():
+        vals = []
+        for i in range(p.numel()):
+            vals.append(((k * 37) % 17 - 8) / 8.0)
+            k += 1
+        H.set_(p, H.const_tensor(vals).reshape(H.shape(p)))
+    model = MPS(net, cost={'ne16': ne16_latency}, input_example=torch.zeros(1, cin, size, size), w_search_type=MPSType.PER_CHANNEL,
+                qinfo=get_default_qinfo(w_precision=(2, 4, 8), a_precision=(8,)))
+    model.eval()
+    qtz = model.seed.conv.w_mps_quantizer
+    rows = [[], [], []]
+    start = []
+    for p_idx, c in enumerate(counts):
+        for _ in range(c):
+            start.append(p_idx)
+    for ch, p_idx in enumerate(start):
+        for r in range(3):
+            rows[r].append(1.0 - 0.25 * abs(r - p_idx) - ch / 4096.0 - r / 16384.0)     # no two scores are equal
+    H.set_(qtz.alpha, H.const_tensor(rows))
+    model.update_softmax_options(hard=True)
+    model(model._input_example)
+    cost_before = H.scalar(model.get_cost('ne16'))
+    model = optimize_prec_assignment(model, 'ne16')
+    after = qtz.alpha.data.argmax(dim=0)
+    model(model._input_example)
+    cost_after = H.scalar(model.get_cost('ne16'))
+    H.observe('costs', [cost_before, cost_after])
+    H.observe('assignment', after)
+    H.ensure('optimize:no-channel-loses-bits', all(int(after[ch]) >= start[ch] for ch in range(cout)))
+    H.ensure('optimize:cost-under-the-refinement-model-is-not-higher', H.le(cost_after, cost_before))
 
 
 def h_reassign(H, P, C, best):
@@ -41,13 +92,16 @@ PROPERTY = {
         explanation='post-condition of the real _reassign_precisions for ALL real score matrices without ties and all target compositions, sizes '
                     'P x C up to 2x3 / 3x2 (quick) and 3x3 (thorough): bounded in size, exhaustive in values. Configurations on which the unchanged '
                     'tree violates the clause are listed one by one in known_findings.json.',
-        not_decided=['optimize_prec_assignment (needs a whole MPS model with the NE16 cost; float-decrement while loops): promotion-only and '
-                     'cost-not-higher clauses', 'sizes beyond 3 x 3'],
+        not_decided=['optimize_prec_assignment for all models and coefficients: only a BOUNDED check on concrete values is run (optimize-prec-assignment: one-layer per-channel '
+                     'MPS models, 64-channel 3x3 convolution with the NE16 cost, real MPS constructor and conversion) - labelled bounded, never counted as proved', 'sizes beyond 3 x 3'],
         assumptions=['no ties among the scores', 'bounded sizes (labelled bounded, not a proof for all sizes)'],
     ),
 }
 
 HARNESSES = [
+    dict(name='optimize-prec-assignment', fn='h_optimize', property=['C20'], functions=['plinio/methods/mps/utils.py::optimize_prec_assignment', 'plinio/methods/mps/utils.py::_compute_cost'],
+         quick=[dict(cin=32, counts=[33, 20, 11])], thorough=[dict(cin=32, counts=[33, 20, 11]), dict(cin=48, counts=[34, 19, 11]), dict(cin=32, counts=[14, 10, 8])],
+         timeout=120, crosscheck=1, budget=600),
     dict(name='reassign', fn='h_reassign', property=['C20'], functions=['plinio/methods/mps/utils.py::_reassign_precisions'],
          quick=[dict(P=P, C=C, best=list(b)) for P, C in ((2, 2), (2, 3), (3, 2)) for b in _compositions(C, P)],
          thorough=[dict(P=P, C=C, best=list(b)) for P, C in ((2, 2), (2, 3), (3, 2), (2, 4), (3, 3)) for b in _compositions(C, P)],
